@@ -322,6 +322,75 @@ def r6_layout(ctx):
                   f"`{rhs}` may hold a repeated (ID, TIME) entry when joined onto the requested index: a request with a repeated age returns more rows than requested (4 -> 6)")
 
 
+def r7_requested_ages(ctx):
+    """The closed forms of R2 are functions of the time variable `t`: the estimate is the closed form *at the requested age* only if
+    the requested ages reach `t` unchanged and unmasked (a masked age is computed as if the individual had no visit: value 0)."""
+    from ..astq import Canon, unify
+    ctx.rule("C09.R7", "requested ages reach the time variable `t` unchanged and unmasked (closed set of writers of `t`)", 6)
+    ix = ctx.ix
+    M = "leaspy.models.mcmc_saem_compatible"
+    # (a) closed set of writers of state['t']
+    writers = []
+    for f in ix.iter_funcs():
+        for st in statements(f.node):
+            if isinstance(st, (ast.Assign, ast.AugAssign)):
+                for t in (st.targets if isinstance(st, ast.Assign) else [st.target]):
+                    if isinstance(t, ast.Subscript) and isinstance(t.slice, ast.Constant) and t.slice.value == "t":
+                        writers.append((f, st))
+        for c in ast.walk(f.node):
+            if isinstance(c, ast.Call) and isinstance(c.func, ast.Attribute) and c.func.attr == "put" and c.args and isinstance(c.args[0], ast.Constant) and c.args[0].value == "t":
+                writers.append((f, c))
+    pt = ix.func(M, "McmcSaemCompatibleModel._put_data_timepoints", "C09.R7")
+    cn = Canon(pt.node)
+    cfg = CFG(pt.node)
+    for f, st in writers:
+        if f.key == pt.key and isinstance(st, ast.Assign):
+            rhs = cn.text(st.value)
+            n = cfg.node_containing(st)
+            guards = [(cn.text(cfg.stmt[h].test), lab) for h, lab in cfg.if_guards(n)] if n is not None else []
+            is_wt = ("isinstance($2, WeightedTensor)", True) in guards
+            if rhs == "$2" and is_wt:
+                ctx.ok("C09.R7", f, st, "a WeightedTensor of ages is stored as given (its weights are the caller's: C06.R2)")
+            elif rhs in ("WeightedTensor($2)", "WeightedTensor($2, None)", "WeightedTensor($2, weight=None)") or (rhs == "$2" and not is_wt):
+                ctx.ok("C09.R7", f, st, "plain ages are stored unchanged, without any mask")
+            elif rhs.startswith("WeightedTensor($2, "):
+                ctx.violation("C09.R7", f, st, f"plain requested ages are stored with the mask `{rhs[len('WeightedTensor($2, '):-1]}`: a requested age for which it is false is treated as "
+                              "'no visit' and its estimate is 0 instead of the closed form")
+            else:
+                ctx.violation("C09.R7", f, st, f"the time variable is set to `{rhs}`, not to the requested ages")
+        elif isinstance(st, ast.Assign) and U(st.value) == "None":
+            ctx.ok("C09.R7", f, st, "reset of the data variables")
+        else:
+            ctx.violation("C09.R7", f, st, f"`{U(st)[:70]}`: the time variable is written outside _put_data_timepoints (the estimate no longer sees the requested ages)")
+    # (b) callers hand the requested ages over unchanged
+    for mod, qual in ((M, "McmcSaemCompatibleModel.compute_individual_trajectory"), ("leaspy.models.joint", "JointModel.compute_individual_trajectory")):
+        f = ix.func(mod, qual, "C09.R7")
+        L = Canon(f.node).lines(True, True)
+        ok = unify(L, ["$1, $2 = $0._get_tensorized_inputs($1, $2, skip_ips_checks=$k0)", "?st = $0.state.clone(disable_auto_fork=True)", "$0._put_data_timepoints(?st, $1)"])
+        ctx.check(ok is not None and ok["#0"] < ok["#2"], "C09.R7", f, f.node, "requested ages -> _get_tensorized_inputs -> _put_data_timepoints of the working state",
+                  "the requested ages are not handed (tensorised, unchanged) to _put_data_timepoints of the working state", construct="ages handed over")
+    g = ix.func(M, "McmcSaemCompatibleModel._get_tensorized_inputs", "C09.R7")
+    gl = Canon(g.node).lines(True, True)
+    ok = "$1 = tensorize_2D($1, unsqueeze_dim=0)" in gl and "return ($1, $2)" in gl and sum(1 for ln in gl if ln.startswith("$1 = ") or ln.startswith("$1, ")) == 1
+    ctx.check(ok, "C09.R7", g, g.node, "ages only tensorised (1 individual x n ages)", "_get_tensorized_inputs changes the requested ages otherwise than by tensorising them", construct="ages tensorised")
+    tz = ix.func("leaspy.models.utilities", "tensorize_2D", "C09.R7")
+    allowed = {"torch.tensor($0, dtype=$2)", "$0.to($2)", "$0.unsqueeze(dim=$1)", "torch.tensor($0, dtype=$k0)", "$0.to($k0)", "$0.unsqueeze(dim=$k0)"}
+    ctz = Canon(tz.node)
+    pm = ctz.pmap
+    px = pm.get("x")
+    bad = []
+    for st in statements(tz.node):
+        if isinstance(st, (ast.Assign, ast.AugAssign)):
+            for t in (st.targets if isinstance(st, ast.Assign) else [st.target]):
+                if isinstance(t, ast.Name) and t.id == "x" or (isinstance(t, ast.Subscript)):
+                    txt = ctz.text(st.value, inline=False)
+                    shape_only = txt in {f"torch.tensor({px}, dtype={pm.get('dtype')})", f"{px}.to({pm.get('dtype')})", f"{px}.unsqueeze(dim={pm.get('unsqueeze_dim')})"}
+                    if isinstance(st, ast.AugAssign) or not shape_only:
+                        bad.append(st)
+    rets = [ctz.text(r.value, inline=False) for r in statements(tz.node) if isinstance(r, ast.Return) and r.value is not None]
+    ctx.check(not bad and rets == [px], "C09.R7", tz, bad[0] if bad else tz.node, "tensorize_2D only converts type / dtype / rank", "tensorize_2D changes the values it tensorises", construct="tensorize_2D value-preserving")
+
+
 def rules(ctx):
     r1_rt(ctx)
     r2_forms(ctx)
@@ -329,6 +398,7 @@ def rules(ctx):
     r4_monotone(ctx)
     r5_clone(ctx)
     r6_layout(ctx)
+    r7_requested_ages(ctx)
     ctx.trust("sigmoid is increasing with range (0,1) and sigmoid(-log g) = 1/(1+g); sympy sign assumptions; pandas join keeps the left index order")
     ctx.assume("weights of data variables are 0/1 masks")
 
